@@ -230,6 +230,42 @@ def ahead_full(m, w, leader=N1, lag=None):
     return w
 
 
+def stale_snapshot(m, w, leader=N1, lag=None):
+    """A duplicate 'retry from 4' answer of the lagging node stays in flight (its link towards the
+    leader is slow) while the node catches up by entries, the leader compacts, and two more entries
+    are committed and applied everywhere. When the stale answer finally arrives the leader's next
+    index for that node falls below its log start: the next heartbeat will send a snapshot that is
+    OLDER than what the node has applied. Left to the explorer: that heartbeat and the deliveries."""
+    lag = lag or addr(m.cfg.n)
+    w = ahead(m, w, leader=leader, lag=lag)
+    hb = ('T', leader, m.cfg.period + 0.001)
+    others = [n for n, _ in w.nodes if n != lag]
+    w = m.do(w, hb, hb)
+    while w.queue(leader, lag):
+        w = m.do(w, ('D', leader, lag))
+    if len(w.queue(lag, leader)) < 2:
+        m.seed_shape_ok = False
+        return w
+    w = m.do(w, ('D', lag, leader))           # first 'retry from 4'; the second one stays in flight
+    w = m.drain(w, only=others)
+    w = m.do(w, hb)                            # resend 4..7
+    while w.queue(leader, lag):
+        w = m.do(w, ('D', leader, lag))
+    w = m.drain(w, only=others)
+    w = m.do(w, ('Z', lag))
+    w = compact(m, w, leader)                  # snapshot at the current position
+    for _ in range(2):
+        w = m.do(w, ('S', leader, 'free'), ('Z', leader))
+    for _ in range(3):
+        w = m.do(w, hb)
+        while w.queue(leader, lag):
+            w = m.do(w, ('D', leader, lag))
+        w = m.drain(w, only=others)
+        w = m.do(w, ('Z', lag))
+    w = m.do(w, ('D', lag, leader))           # the stale duplicate arrives at last
+    return w
+
+
 def voted(m, w, cand=N1, voter=N2):
     """`cand` is candidate, `voter` has granted its vote (answer in flight), nobody else has
     seen the request yet."""
@@ -341,7 +377,7 @@ def candidates(m, w, who=(N1, N2)):
     return w
 
 
-SEEDS = dict(voted=voted, ahead_full=ahead_full, fig8_full=fig8_full, candidates=candidates, battery_lagsnap=battery_lagsnap, ahead=ahead, lagging_newleader=lagging_newleader, m_deposed=m_deposed, split=split, version_snap=version_snap, fresh=fresh, steady=steady, lagging=lagging, lagging_snap=lagging_snap, deposed=deposed,
+SEEDS = dict(voted=voted, stale_snapshot=stale_snapshot, ahead_full=ahead_full, fig8_full=fig8_full, candidates=candidates, battery_lagsnap=battery_lagsnap, ahead=ahead, lagging_newleader=lagging_newleader, m_deposed=m_deposed, split=split, version_snap=version_snap, fresh=fresh, steady=steady, lagging=lagging, lagging_snap=lagging_snap, deposed=deposed,
              deposed_snap=deposed_snap, deposed_twice=deposed_twice, pending=pending, reconnect_pipeline=reconnect_pipeline,
              forwarded=forwarded, fig8=fig8)
 
